@@ -39,6 +39,8 @@ PROPS = {
         "assumptions": [
             "document notifications are handled inline in message order (C27)",
             "reloads are serialised by reload_lock; a skipped (stale generation) request does nothing",
+            "the handlers record the editor text unconditionally and test workspace membership in the same critical section (checked on the source: C29_cfg_real, C29_snapshot_facts); a reload installs its matcher and takes its snapshot in one critical section",
+            "nothing is claimed about documents that are not workspace files at the end",
             "the disk content does not change during the run; open_file_state_version does not wrap",
         ],
         "technique": "invariant (consistent / fixed by the current handler / still covered by the reload task) preserved by every step; decreasing measure for termination; decide'd counter-schedules; T-src mechanism flags; oracle sessions",
@@ -84,7 +86,7 @@ PROPS = {
     },
 }
 
-# fixes made for this cluster: 0a27a3b, 8a52666, fe1e3f7, e491074, 5bda623
+# fixes made for this cluster: 0a27a3b, 8a52666, fe1e3f7, e491074, 5bda623, 23fb65c
 HOOK_COMMITS = [
     "e302802 verif hook: H4 traced RwLock/Mutex wrappers and seeded scheduling points in emmylua_ls (feature verif)",
     "30c803d verif hook: rustfmt import order of the cfg-switched lock imports (H4)",
